@@ -318,6 +318,9 @@ impl<const H: usize> Writer<H> {
 
         self.flushed_offset.set(offset);
         self.write_offset = offset;
+        // Rewind the buffered writer's file cursor as well, otherwise later appends land at the
+        // old physical position, beyond the truncation marker.
+        self.writer.seek(SeekFrom::Start(offset))?;
 
         // Write full zero header as clear truncation marker
         let zero_header = [0u8; RECORD_HEAD_SIZE];
